@@ -56,3 +56,13 @@ check("C01",
       "pinned to 1 and 3/2. Bounds: grid points per half-axis <= 2 (quick) / 3 (thorough), <= 2 refinements, copula 3x3 (quick), 5x5 and 3x3x3 "
       "(thorough). Outside: probability-step grids (middle() is a root search), n-d adapted tree, float rounding.",
       TECH, "DESIGN.md section 3 C01")
+
+check("C04",
+      "Bounded model checking of the real drift/representation code (LevyTriplet conversions, MarkovChainProcess construction and initialisation, "
+      "compute_mu_h, vol_adjustment, the per-margin code of the copula chain) on a symbolic grid and an abstract measure: deterministic drift + "
+      "rate-weighted states == mean per unit time of the truncated process for all four declared representations, finite/infinite variation and "
+      "activity, truncation bounds anywhere relative to +-1; squared diffusion coefficient gets the central-cell second moment iff the variation is "
+      "infinite.",
+      "Trusted: z3; abstract measure axioms; sqrt axioms. model.drift() (r-d+omega of the exponential models) is an arbitrary symbol. Outside: n-d "
+      "small-jump covariance (nquad/sqrtm), per-cell x^2 oscillation bound.",
+      TECH, "DESIGN.md section 3 C04")
